@@ -109,7 +109,7 @@ func (c *Ctx) ruleErrDeadStore(rule string, pkgs []string, exempt map[string]str
 						// (2) never read on any path at all
 						if !found && !captured && !results[obj] {
 							anyRead, _ := g.Forward(cfgPos{dp.B, dp.I + 1}, Search{
-								Target: func(n ast.Node) bool { return readsObj(info, n, obj) },
+								Target:  func(n ast.Node) bool { return readsObj(info, n, obj) },
 								Barrier: func(n ast.Node) bool { return pureOverwrite(info, n, obj) || freshDef(info, n, obj) },
 							})
 							if !anyRead {
